@@ -236,6 +236,11 @@ CORPUS = [
     ['-w', '4,0,0,0,0,0,5,.001', '-w', '4,0,0,5,0,3,5,.001', '--excitation-pulse=2', '--skin-effect-conductivity=5e7,1',
      '--skin-effect-conductivity=3e7,2', '--insulation-load=.004,2.5,1', '--insulation-load=.005,3,2',
      '--theta=0,10,2', '--phi=0,90,1'],
+    # taper limits together with scaling of everything / of the tapered wire / of another wire
+    ['-f', '7', '-w', '4,8,0,0,0,0,0,20,.002', '-w', '5,5,0,0,20,8,0,20,.002', '--taper-wire=4,3,0.4,4', '--geo-scale=2',
+     '--excitation-pulse=1', '--theta=0,10,2', '--phi=0,90,1'],
+    ['-f', '7', '-w', '4,8,0,0,0,0,0,20,.002', '-w', '5,5,0,0,20,8,0,20,.002', '--taper-wire=4,1,0.3,5', '--geo-scale=0.5,4',
+     '--taper-wire=5,2,0.5', '--geo-scale=3,5', '--excitation-pulse=1', '--theta=0,10,2', '--phi=0,90,1'],
 ]
 
 
@@ -253,6 +258,8 @@ def run(ck):
         except Exception as e:
             bad, acc = 'round trip raised %s: %s' % (type(e).__name__, e), True
         if not acc:
+            if meta.get('corpus'):
+                dis.append(dict(argv=argv, why='corpus command line is rejected by main'))
             ck.count('generated_but_rejected')
             continue
         ck.case(tuple(sorted(set(a.split('=')[0] for a in argv))) + (meta.get('tagmode'), tuple(meta.get('loads', ()))), True,
